@@ -5,6 +5,7 @@
 import Proofs.Ledger
 import Proofs.FrameFn
 import Proofs.WF
+import Proofs.SupplyHistory
 namespace C02
 open Esdt
 
@@ -136,8 +137,63 @@ theorem metadata_updates_keep_value (env : Env) (c : Call) (ctx ctx' : Ctx) (out
   · obtain ⟨tok, nb, _, t, m, h0, h1, _, _, hw⟩ := (updateAttributes_effect env c ctx).elim h
     exact ⟨tok, nb, t, m, _, h0, h1, hw⟩
 
+/-- FULL (one call, as ONE sum over all accounts of the shard): for each supply operation — ESDTLocalMint, ESDTLocalBurn,
+    ESDTBurn, ESDTNFTCreate, ESDTNFTAddQuantity, ESDTNFTBurn, ESDTWipe — and the toggles ESDTFreeze / ESDTUnFreeze, a
+    successful call on a well-formed shard state changes, for EVERY token storage key, the sum of the balances held under
+    that key by all accounts of the shard by exactly the stated amount (`supplyDelta`: + the given amount for mint / add
+    quantity, − it for the burns, the given quantity under the returned fresh nonce for create, − the frozen account's
+    holding for wipe, nothing for the toggles) and by nothing under any other key; the state stays well-formed. -/
+theorem supply_changes_by_stated_amount (op : SupplyOp) (env : Env) (c : Call) (A : Accts) (out : VMOutput) (ctx' : Ctx)
+    (hI : SInv A) (hcsys : c.caller ≠ systemAccountAddress) (hrsys : c.rcv ≠ systemAccountAddress)
+    (hwrap : op = .create → ∀ tok, c.args[0]? = some tok →
+      counterOf (A.read c.caller (nonceKeyPrefix ++ tok)) + 1 < two64)
+    (h : op.run env c { accts := A } = .ok (out, ctx')) :
+    SInv ctx'.accts ∧ ∀ k, TokKey k → balAt ctx'.accts k = balAt A k + supplyDelta op c A out k :=
+  supply_step op env c A out ctx' hI hcsys hrsys hwrap h
+
+/-- FULL (operation sequences): along ANY sequence of those operations by anyone with any arguments (failed ones rolled
+    back), for every token storage key the shard's sum of balances is the initial sum plus the sum of the stated amounts
+    of the successful operations — nothing is created or destroyed on the side; every intermediate state is well-formed
+    (so no stored balance is negative: C15.canon_entry_decodes).  Hypotheses on the initial state (`SInv`) and, per
+    operation, that neither account is the system account and no create finds its counter at 2^64 − 1. -/
+theorem supply_history (steps : List SStep) (A : Accts) (hI : SInv A) (hok : SStepsOK steps A) :
+    SInv (srun steps A).1 ∧ ∀ k, TokKey k → balAt (srun steps A).1 k = balAt A k + (srun steps A).2 k :=
+  supply_history_run steps A hI hok
+
+/-! non-vacuity: alice holds the mint and burn roles of a fungible token and nothing else; mint 5, burn 2 locally, a mint by
+    bob (no role: refused): the shard's sum under the token's key is 3 = 0 + (5 − 2 + 0) -/
+def svEnv : Env := { self := 0, nshards := 1, payable := fun _ => .yes, dns := [], nameChange := false, gas := {}, active := true }
+def svAlice : Bytes := List.replicate 32 1
+def svBob : Bytes := List.replicate 32 2
+def svTok : Bytes := [70, 84]
+def svA0 : Accts := Accts.write [] svAlice (roleKeyPrefix ++ svTok) (encRoles [roleLocalMint, roleLocalBurn])
+def svMint (a : Bytes) (n : UInt8) : SStep :=
+  ⟨.mint, svEnv, { fn := fnESDTLocalMint, caller := a, rcv := a, args := [svTok, [n]], gas := 100 }⟩
+def svBurn (a : Bytes) (n : UInt8) : SStep :=
+  ⟨.localBurn, svEnv, { fn := fnESDTLocalBurn, caller := a, rcv := a, args := [svTok, [n]], gas := 100 }⟩
+example : (srun [svMint svAlice 5, svBurn svAlice 2, svMint svBob 9] svA0).2 (esdtKeyPrefix ++ svTok) = 3 ∧
+    balAt (srun [svMint svAlice 5, svBurn svAlice 2, svMint svBob 9] svA0).1 (esdtKeyPrefix ++ svTok) = 3 ∧
+    balAt svA0 (esdtKeyPrefix ++ svTok) = 0 := by decide +kernel
+
+example : SInv svA0 := by
+  have hread : ∀ a k, TokKey k → svA0.read a k = [] := by
+    intro a k hk
+    unfold svA0
+    have hne : ¬ (svAlice = a ∧ roleKeyPrefix ++ svTok = k) := fun h => not_tokKey_role svTok (h.2 ▸ hk)
+    rw [Accts.read_write, if_neg hne]
+    rfl
+  refine ⟨by simp [Accts.Nodup, svA0, Accts.write, Accts.set], fun a k hk _ => Or.inl (hread a k hk), ?_, ?_⟩
+  · intro a k
+    unfold svA0
+    rw [Accts.read_write]
+    split
+    · decide +kernel
+    · show ([] : Bytes).length < two63; decide
+  · intro a k t m hk hne _ _
+    exact absurd (hread a k hk) hne
+
 -- "Never negative" over histories: C15.wf_history (every stored entry decodes to a strictly positive balance or a flagged
--- zero).  The transfer functions: C01.  PARTIAL only in that the world-level supply equation (Σ over all accounts and shards)
--- is evaluated by the supply oracle, not stated as one Lean sum.
+-- zero).  The transfer functions: C01 (three world models).  PARTIAL only in that ONE world mixing the supply operations with
+-- the transfer functions across shards is not formalised (the supply oracle evaluates that sum on every generated history).
 
 end C02
